@@ -1487,7 +1487,8 @@ class Parameter(_ParameterBase):
     def _trigger_event(self, attribute, old, new):
         event = Event(what=attribute, name=self.name, obj=None, cls=self.owner,
                       old=old, new=new, type=None)
-        for watcher in self.watchers[attribute]:
+        # (a copy: a callback may unwatch while the event is dispatched)
+        for watcher in list(self.watchers[attribute]):
             self.owner.param._call_watcher(watcher, event)
         if not self.owner.param._BATCH_WATCH:
             self.owner.param._batch_call_watchers()
